@@ -1,6 +1,6 @@
 (* C02 - two stacked parsers (HAP session below a channel's own loop): the whole pipeline is
    independent of the segmentation of the encrypted stream. *)
-From Coq Require Import NArith List Bool Arith Lia.
+From Coq Require Import NArith ZArith List Bool Arith Lia.
 From PV Require Import Common.Cases Common.Framing Common.Endian C02.Model C02.ProofsBase.
 Import ListNotations.
 Local Open Scope N_scope.
@@ -84,3 +84,27 @@ Section Layered.
     - apply lfeeds_whole; auto. now rewrite <- E.
   Qed.
 End Layered.
+
+(* the upper parser replaced by one that agrees with it wherever it does not fail *)
+Section LayerAgree.
+  Variables (SA SB MB : Type).
+  Variable pa : SA -> bytes -> step N SA bytes err.
+  Variables p q : SB -> bytes -> step N SB MB err.
+  Variable guard : bool.
+  Hypothesis agree : forall s x, (forall e, q s x <> Fail e) -> p s x = q s x.
+
+  Lemma lfeeds_agree : forall chunks sa bufa sb bufb ms sa2 ra2 sb2 rb2,
+    lfeeds _ _ _ pa q guard sa bufa sb bufb chunks = LOut ms sa2 ra2 sb2 rb2 ->
+    lfeeds _ _ _ pa p guard sa bufa sb bufb chunks = LOut ms sa2 ra2 sb2 rb2.
+  Proof.
+    induction chunks as [|c cs IH]; intros sa bufa sb bufb ms sa2 ra2 sb2 rb2 H; [exact H|].
+    cbn [lfeeds] in *.
+    destruct (run pa sa (bufa ++ c)) as [ps sa1 r1| |]; try discriminate.
+    destruct (guard && negb (nonempty (concat ps))).
+    - now apply IH.
+    - destruct (run q sb (bufb ++ concat ps)) as [ms1 sb1 rb1| |] eqn:R; try discriminate.
+      rewrite (run_agree _ _ p q agree _ _ _ _ _ R).
+      destruct (lfeeds _ _ _ pa q guard sa1 r1 sb1 rb1 cs) as [ms' a b c' d| | |] eqn:L; try discriminate.
+      rewrite (IH _ _ _ _ _ _ _ _ _ L). exact H.
+  Qed.
+End LayerAgree.
